@@ -15,6 +15,8 @@
 (*   "ix":[{"shards":[..],"own":[[owners]..]}..],                            *)
 (*   "before":[[index position,field,view,shard]..],"after":[..]}            *)
 (*     (holderCleaner.CleanHolder on a real holder)                          *)
+(*  {"ev":"resized", ...as clean..., "all":[fragments anywhere before]}       *)
+(*     one node of a real multi-server cluster after a completed add/remove   *)
 (***************************************************************************)
 EXTENDS ResizePlanC21, TLC, Json
 
@@ -84,7 +86,18 @@ TClean ==
           /\ CleanupOnlyUnowned(e.self, before, after, own)
     /\ i' = i + 1 /\ UNCHANGED cfg
 
-TNext == TPlan \/ TJob \/ TClean
+\* one node after a completed resize on real servers
+TResized ==
+    /\ Is("resized")
+    /\ LET own == [x \in UNION {{<<k, s>> : s \in Range(e.ix[k].shards)} : k \in 1..Len(e.ix)} |->
+                      Range(e.ix[x[1]].own[CHOOSE p \in 1..Len(e.ix[x[1]].shards) : e.ix[x[1]].shards[p] = x[2]])]
+           tup(l) == {<<x[1], x[2], x[3], x[4]>> : x \in Range(l)}
+       IN /\ e.self \in Range(e.ids)
+          /\ \A x \in tup(e.before) \cup tup(e.all) : <<x[1], x[4]>> \in DOMAIN own
+          /\ ResizedOK(e.self, tup(e.before), tup(e.after), tup(e.all), own)
+    /\ i' = i + 1 /\ UNCHANGED cfg
+
+TNext == TPlan \/ TJob \/ TClean \/ TResized
 
 Accepted ==
     LET n == TLCGet("stats").diameter - 1 IN
